@@ -708,7 +708,9 @@ def remove_redundant_casts_ir(graph: ir.Graph) -> None:
             if src_dtype != target_code:
                 # Try folding consecutive Cast→Cast when net dtype is identity.
                 out_val = outs[0]
-                consumers = _consumer_nodes(nodes, out_val)
+                # Nested captures of the intermediate are handled below
+                # (intermediate_is_observed keeps the first Cast alive).
+                consumers = _consumer_nodes(nodes, out_val, include_captures=False)
                 if len(consumers) == 1:
                     next_node = consumers[0]
                     if _is_standard_onnx_node(next_node, "Cast"):
@@ -2635,6 +2637,9 @@ def remove_orphan_transposes_ir(graph: ir.Graph) -> None:
                     is_live = True
                     break
                 if _has_named_consumer(nodes, producer=node, output_name=out_name):
+                    is_live = True
+                    break
+                if _nested_graph_references_value(nodes, out):
                     is_live = True
                     break
 
